@@ -62,8 +62,9 @@ func (h *recHooks) BeforeParse(b []byte)                   { h.add("parse", b, l
 
 func Spec() *mon.Spec {
 	return &mon.Spec{
-		ID:    "C19",
-		Level: "exploration",
+		ID:      "C19",
+		RuleAdd: "Later additions (rounds 4-17): empty-read flavours with exact error-text comparison; bytes together with a deadline error; floods; an application request type whose Bytes() is not idempotent (hook bytes vs bytes the transport was given); a second call after an exception/fault; damaged replies; a stray byte read on its own; cancellation during the completing read; outcome differences need three differing re-runs at 40x the timeout before they are believed.",
+		Level:   "exploration",
 		Rule: "every call runs twice on the same scripted schedule: on a client with recording hooks (each slice argument copied at call time, stamped from the clock the transport log uses) and on a client without hooks. Schedules: fragmentations of the reply (single/double/byte-wise cuts, timed-out reads between chunks) and terminal faults after a prefix (EOF, I/O error alone or together with bytes, stall, context cancel, write error), normal and exception replies, 10 functions x 3 client kinds; network kinds also through modbus.NewClient with a recording ParseResponseFunc. " +
 			"Oracle: exactly one BeforeWrite with Bytes() of the request, stamped before the transport Write; one AfterEachRead per transport Read, same order, exactly that read's bytes, n and error; if (and only if) a reply was handed to the parser exactly one BeforeParse carrying the concatenation of all bytes read, stamped after the last read (and before the parser, where recorded); outcome (response bytes / error text and type) identical with and without hooks. distinct key=(client, fc, schedule hash).",
 		Assumptions: []string{"'handed to the parser' is observed directly for clients built with a recording ParseResponseFunc and inferred from the outcome otherwise (success or an error that is neither *ClientError nor a context error)"},
